@@ -3,6 +3,7 @@
 //!   vh-core record <machine> --cfg <id> --seed S --n N --out FILE   real executions -> ndjson trace
 mod bigint;
 mod cfgs;
+mod ser;
 mod poly;
 pub mod curve;
 mod elem;
@@ -50,6 +51,10 @@ fn replay_poly<F: poly::PF>(big: bool) -> util::Report {
     let stdin = std::io::stdin();
     poly::replay::<F>(util::tlc_transitions(BufReader::new(stdin.lock())), big)
 }
+fn replay_ser<D: curve::CurveDrv>(big: bool) -> util::Report {
+    let stdin = std::io::stdin();
+    ser::replay::<D>(util::tlc_transitions(BufReader::new(stdin.lock())), big)
+}
 fn replay_bigint<const N: usize>() -> util::Report {
     let stdin = std::io::stdin();
     bigint::replay::<N>(util::tlc_transitions(BufReader::new(stdin.lock())))
@@ -72,6 +77,7 @@ fn main() {
         ("replay", "field") => with_big_field!(cfg.as_str(), replay_field(big)),
         ("replay", "curve") if !big => with_toy_curve!(cfg.as_str(), replay_curve(big)),
         ("replay", "poly") if !big => with_toy_prime_field!(cfg.as_str(), replay_poly(big)),
+        ("replay", "ser") if !big => with_toy_curve!(cfg.as_str(), replay_ser(big)),
         ("replay", "bigint") => { let nl: usize = cfg.parse().expect("--cfg <limbs>"); with_limbs!(nl, replay_bigint()) }
         ("record", "curve") => {
             let seed: u64 = arg(&args, "--seed").and_then(|s| s.parse().ok()).unwrap_or(1);
